@@ -1,2 +1,3 @@
+@staticmethod
 def spec(self, attr):
     return self.updates_[attr]
